@@ -711,8 +711,13 @@ fn structured_clone_internal(
             "Symbol cannot be cloned with structuredClone",
         )),
 
-        // Objects require deep cloning
-        JsValue::Object(obj) => clone_object(interp, guard, obj),
+        // Objects require deep cloning (nesting too deep for the native stack is a RangeError)
+        JsValue::Object(obj) => {
+            interp.enter_native_recursion()?;
+            let cloned = clone_object(interp, guard, obj);
+            interp.leave_native_recursion();
+            cloned
+        }
     }
 }
 
